@@ -62,8 +62,8 @@ Definition rows_ok (sepc : Z) (obs : str) (nrows ncols : Z) (hdr_too : bool) : b
 
 EXN = {'TypeError': 1, 'ValueError': 2, 'IndexError': 3, 'AssertionError': 4, 'RuntimeError': 5}
 FINDINGS = {
-    'ambiguous-size': ('DomainDefinition.write_to_vti', 'node-sized vectors are written as point data with their component count',
-                       'total size c*nnodes is also a multiple of nel'),
+    'block-total-size': ('DomainDefinition.write_to_vti', 'block vectors are sorted into point/cell data by the length of their vector axis',
+                         '2-D array, one axis a multiple of nnodes, no axis a multiple of nel, total size a multiple of nel'),
     'single-vector-2d-block': ('DomainDefinition.write_to_vti', '2-D vector block with one vector is padded to three components',
                                '2-D array with one vector of 2*nnodes entries on a 2-D domain'),
     'single-entry-array': ('ScalarToFile._response', 'arrays with one entry are logged', 'ndarray with ndim >= 1 and size 1'),
@@ -785,13 +785,13 @@ def oracle(ctx, pym, jobs):
             _, spec, dom, vectors, data, err, scale, origin, unit = job
             cls = spec.get('class', 'structured')
             case = dict(spec=spec)
-            amb_total = [k for k, a in vectors.items() if a.ndim in (1, 2) and _point_but_total_cell(dom, a)]
+            amb_total = [k for k, a in vectors.items() if a.ndim == 2 and _point_but_total_cell(dom, a)]
             one_vec = [k for k, a in vectors.items() if _single_vector_2d_block(dom, a)]
             if err is not None:
                 if cls == 'structured':
                     ctx.violation('impl-violates', 'DomainDefinition.write_to_vti', 'writes without raising', cls, case, got=repr(err)[:300])
                 elif amb_total and isinstance(err, TypeError):
-                    report_finding(ctx, 'ambiguous-size', case, expected='point data', got=repr(err)[:200])
+                    report_finding(ctx, 'block-total-size', case, expected='point data, one array per vector', got=repr(err)[:200])
                 elif one_vec and isinstance(err, ValueError):
                     report_finding(ctx, 'single-vector-2d-block', case, expected='one 3-component point array', got=repr(err)[:200])
                 continue
@@ -801,10 +801,7 @@ def oracle(ctx, pym, jobs):
                 continue
             bad = oracle_vti_file(ctx, dom, vectors, data, scale, origin, unit, 'DomainDefinition.write_to_vti', case)
             for pred, exp, got in bad:
-                if amb_total and pred.endswith('PointData'):
-                    report_finding(ctx, 'ambiguous-size', case, expected=exp, got=got)
-                else:
-                    ctx.violation('impl-violates', 'DomainDefinition.write_to_vti', pred, cls.split(':')[0], case, expected=exp, got=got)
+                ctx.violation('impl-violates', 'DomainDefinition.write_to_vti', pred, cls.split(':')[0], case, expected=exp, got=got)
         elif kind == 'wvti':
             _, spec, dom, calls, files, err = job
             case = dict(spec=spec)
@@ -890,10 +887,10 @@ def _within_format(v, parsed, fmt):
 
 
 def _point_but_total_cell(dom, a):
+    """2-D block whose axes say 'point data' (exactly one axis is a multiple of nnodes, none of nel) while the total size is a
+    multiple of nel"""
     sp_ = spec_entry(dom, a)
-    if a.ndim == 1:
-        return a.size > 0 and a.size % dom.nnodes == 0 and a.size % dom.nel == 0
-    return sp_ not in (None, 'skip') and sp_[0] == 'point' and a.size % dom.nel == 0
+    return sp_ is not None and sp_ != 'skip' and sp_[0] == 'point' and a.size % dom.nel == 0
 
 
 def _single_vector_2d_block(dom, a):
